@@ -31,6 +31,7 @@ func checkC17(c *Ctx) {
 	getFX(c)
 	c17PKCS12(c)
 	c17KDF(c)
+	c17KeyBag(c)
 	c17Verify(c)
 	c17Envelope(c)
 	c17Asserts(c)
@@ -495,5 +496,36 @@ func c17KDF(c *Ctx) {
 	}
 	if !found {
 		c.Undecided(rule, fname(kdf), "the first hash input contains the expanded salt followed by the expanded password", "no hash call over the expanded strings recognised", kdf.Pos())
+	}
+}
+
+// c17KeyBag: the SM2 private key written into the PKCS#12 shrouded key bag is the key that was put in:
+// the SEC1 octets are D's big-endian bytes, as they are or left-padded with zeros, and the public point is (X, Y).
+func c17KeyBag(c *Ctx) {
+	rule := "K-C17-keybag"
+	m := c.Fn("pkcs12", "MarshalPrivateKey")
+	if m == nil {
+		c.Missing(rule, "pkcs12.MarshalPrivateKey", "function", "not found")
+		return
+	}
+	be := newBigEnv(m, paramNames(m, "key", "oid"))
+	found := false
+	for _, ci := range allCalls(m) {
+		call, ok := ci.(*ssa.Call)
+		if !ok || calleeID(&call.Call) != "encoding/asn1.Marshal" {
+			continue
+		}
+		found = true
+		fs := fieldStores(m, be)
+		dbg("pkcs12.MarshalPrivateKey fields: %v", fs)
+		d := fs["PrivateKey"]
+		okD := d == "bytes(key.D)" || (strings.HasPrefix(d, "padleft(") && strings.HasSuffix(d, ",bytes(key.D))"))
+		c.Check(okD, rule, fname(m), "PrivateKey octets are D (left-padded with zeros at most)", "", "the key bag stores PrivateKey = "+d+": the scalar must be written as D's big-endian bytes, optionally left-padded (right-padding multiplies the key by 256^k)", call.Pos())
+		pk := fs["Bytes"]
+		okP := strings.HasPrefix(pk, "call:crypto/elliptic.Marshal(") && strings.HasSuffix(pk, "Curve,key.PublicKey.X,key.PublicKey.Y)")
+		c.Check(okP, rule, fname(m), "PublicKey is the uncompressed point (X, Y)", "", "the key bag stores PublicKey = "+pk, call.Pos())
+	}
+	if !found {
+		c.Undecided(rule, fname(m), "asn1.Marshal of the EC private key", "call not found", m.Pos())
 	}
 }
